@@ -102,8 +102,9 @@ def b_add_const(a, c):
 class Env:
     """variable id -> abstract bit vector"""
 
-    def __init__(self, f, leaf=None, through_locals=False):
+    def __init__(self, f, leaf=None, through_locals=False, prog=None):
         self.f = f
+        self.prog = prog                      # with a program: calls of one-expression scalar helpers are inlined
         self.vars = {}
         self.leaf = leaf                      # callable(expr) -> bit vector or None: symbolic sources (array elements, loads)
         self.through_locals = through_locals  # read single-assignment locals through their initialiser
@@ -163,6 +164,31 @@ class Env:
             return ['X'] * W
         if k == 'temp':
             return self.eval(e['e'])
+        if k == 'call' and self.prog is not None and self.depth < 4 and e.get('fn') and not e.get('obj'):
+            cands = [g for g in self.prog.fn(e['fn'], e.get('sig')) if g.get('body')]
+            if cands:
+                g = cands[0]
+                body = g['body']['s'] if g['body'].get('k') == 'block' else [g['body']]
+                if len(body) == 1 and body[0].get('k') == 'return' and body[0].get('e') is not None and len(g['params']) == len(e.get('a', [])) and \
+                        all(T(g, p_['t']).get('int') and not T(g, p_['t']).get('ref') for p_ in g['params']):
+                    sub = Env(g, self.leaf, self.through_locals, self.prog)
+                    sub.depth = self.depth + 1
+                    for p_, a in zip(g['params'], e['a']):
+                        v = self.eval(a)
+                        pt = T(g, p_['t'])
+                        nb = pt.get('bits', 32)
+                        if nb < 32:
+                            fill = v[nb - 1] if pt.get('sg') else '0'
+                            v = v[:nb] + [fill] * (W - nb)
+                        sub.vars[p_['id']] = v
+                    r = sub.eval(body[0]['e'])
+                    rt = T(g, g.get('ret'))
+                    nb = rt.get('bits', 32)
+                    if nb < 32:
+                        fill = r[nb - 1] if rt.get('sg') else '0'
+                        r = r[:nb] + [fill] * (W - nb)
+                    return r
+            return ['X'] * W
         if k == 'cond':
             return b_join0(self.eval(e['x']), self.eval(e['y']))
         if k == 'bin':
@@ -173,6 +199,13 @@ class Env:
             if op in ('<<', '>>'):
                 n = const_val(e['y'])
                 a = self.eval(e['x'])
+                if n is None:
+                    # a shift amount that is a known constant in this context (an inlined helper's parameter)
+                    nb = self.eval(e['y'])
+                    if all(x in ('0', '1') for x in nb):
+                        n = sum(1 << i for i, x in enumerate(nb) if x == '1')
+                        if n >= W:
+                            n = None
                 if n is None:
                     return ['X'] * W
                 if op == '<<':
